@@ -174,6 +174,10 @@ def array_rules(facts, rep):
     rep.rule('AR.5', 'allocation and memcpy sizes are count * sizeof(T)')
     rep.assume('element constructors / destructors of T are trusted; Array(ptr, size, copy=false) adopts foreign storage (not decided); exception paths are not modelled')
     classes = sorted(c for c in facts.classes if strip_targs(c) == 'tulz::Array')
+    st_ = raw_storage(facts, 'tulz::Array')
+    if st_ is not None:
+        rep.inconclusive('AR.1', 'tulz::Array: storage model', 'include/tulz/container/Array.h', f'the elements are kept behind `{st_[:60]}`, not a raw pointer: the block model of the rules does not describe this array')
+        return
     rep.floor('Array instantiations', len(classes), 4)
     nfn = 0
     for C in classes:
@@ -603,6 +607,16 @@ def slot_inner(ctx, tgt):
     return ctx.inner(off), kind
 
 
+def raw_storage(facts, generic):
+    """None if every instantiation of the container keeps its elements behind a raw pointer member m_data (what the block model of
+    AR.* / RB.* describes); otherwise the type found"""
+    for cn, c in facts.classes.items():
+        if strip_targs(cn) != generic: continue
+        for f in c['fields']:
+            if f['name'] == 'm_data' and not f['ctype'].rstrip().endswith('*'): return f['ctype']
+    return None
+
+
 def ring_classes(facts):
     return sorted(c for c in facts.classes if strip_targs(c) == 'tulz::RingBuffer')
 
@@ -617,6 +631,12 @@ def ring_analyse(facts, rep):
     add = add0
     classes = ring_classes(facts)
     nfn = 0
+    st_ = raw_storage(facts, 'tulz::RingBuffer')
+    if st_ is not None:
+        for r_ in ('RB.1', 'RB.2', 'RB.3', 'RB.4', 'RB.5', 'RB.6', 'RB.7', 'RB.8', 'RB.9'):
+            add0(r_, None, 'tulz::RingBuffer: storage model', 'include/tulz/container/RingBuffer.h', f'the elements are kept behind `{st_[:60]}`, not a raw pointer: the block model of the rules (malloc / realloc / free of m_data) does not describe this buffer')
+        res['_nfn'] = 0; res['_nclasses'] = len(classes); res['_storage'] = st_
+        return res
     P_, S_, C_ = Lin.sym('P'), Lin.sym('S'), Lin.sym('C')
     one = Lin.const(1)
     for Cn in classes:
@@ -1151,5 +1171,6 @@ def iterator_rules(facts, add):
                             inn = off.inner if isinstance(off, ModVal) else off.total() if isinstance(off, ModPlus) else off if isinstance(off, Lin) else None
                         rest = (inn - idx) if inn is not None else None
                         okk = rest is not None and (rest == Lin.const(0) or (rest.c == 0 and len(rest.t) == 1 and list(rest.t.values()) == [1] and list(rest.t)[0].endswith('.P')))
-                        add('RB.1', okk, f'{label}: *it is container[index]', f.shortloc(), '' if okk else f'dereference yields {r}', key='RB.1|it|deref')
+                        if inn is None and not okk: add('RB.1', None, f'{label}: *it is container[index]', f.shortloc(), f'dereference yields {r}: not an element reference the evaluator follows', key='RB.1|it|deref')
+                        else: add('RB.1', okk, f'{label}: *it is container[index]', f.shortloc(), '' if okk else f'dereference yields {r}', key='RB.1|it|deref')
     return n
